@@ -86,7 +86,8 @@ class DataHeader(BitsInterface, BytesInterface):
         self.appended_blocks: int = appended_blocks
         self.defined_data_format: Optional[DefinedDataFormats] = defined_data_format
         self.sarq: Optional[SARQ] = sarq
-        self.bit_padding: bitarray = bit_padding
+        # 8-bit field of the defined short data header, zeros when not given (header is 96 bits)
+        self.bit_padding: bitarray = bit_padding if bit_padding else bitarray([0] * 8)
         # Unified Data Transport Header (UDT_HEAD) PDU
         self.is_emergency: bool = is_emergency in (True, 1)
         self.udt_option_flag: Optional[UDTOptionFlag] = udt_option_flag
